@@ -36,12 +36,12 @@ theorem fs0_wf (dts : Path → DT) : WF ⟨fs0 dts, none⟩ :=
 /-- ONE STEP, any op, any well-formed state: no crash, the save wrote the image state and nothing else, the
     invariant is re-established and the image is usable afterwards. -/
 theorem step_safe (s : St) (op : Op) (hw : WF s) (ha : allowed s op = true) :
-    StepSpec s op (step false s op) ∧ WF (step false s op).2 ∧ Usable (step false s op).2 :=
+    StepSpec s op (step .base s op) ∧ WF (step .base s op).2 ∧ Usable (step .base s op).2 :=
   let h := step_safe_aux s op hw ha
   ⟨h.1, h.2, usable_of_WF h.2⟩
 
 example : ∃ s op, WF s ∧ allowed s op = true ∧ s.img.isSome ∧ op = .save .aNii :=
-  ⟨(step false ⟨fs0 fun _ => .i16, none⟩ (.load .aNii true)).2, .save .aNii,
+  ⟨(step .base ⟨fs0 fun _ => .i16, none⟩ (.load .aNii true)).2, .save .aNii,
    (step_safe _ _ (fs0_wf _) rfl).2.1, by decide, by decide, rfl⟩
 
 /-- HISTORIES of any length (induction over the op list): from a well-formed state, under the guard, no step
@@ -64,8 +64,8 @@ example : allowedRun ⟨fs0 fun _ => .f32, none⟩
 /-- the executable history runner (the function the driver prints) agrees: under the guard it never emits `bad`,
     produces one outcome per op, and ends in a well-formed state -/
 theorem run_never_bad (s : St) (hw : WF s) (ops : List Op) (ha : allowedRun s ops = true) :
-    (∀ o ∈ (run false s ops).1, o ≠ .bad) ∧ (run false s ops).1.length = ops.length ∧
-      ∃ f, (run false s ops).2 = some f ∧ WF f :=
+    (∀ o ∈ (run .base s ops).1, o ≠ .bad) ∧ (run .base s ops).1.length = ops.length ∧
+      ∃ f, (run .base s ops).2 = some f ∧ WF f :=
   run_ok ops s hw ha
 
 /-- WITHOUT the guard: every save (also a layout-changing save onto the image's own memory-mapped source) writes
@@ -76,11 +76,11 @@ theorem run_never_bad (s : St) (hw : WF s) (ops : List Op) (ha : allowedRun s op
     which `writeTo` yields `bad`;  `im2.aff = im.aff` is the `update_header` decision (`outAff_eq`,
     `update_header_affine_close`): the file's affine is the best affine of the reconciled header (SPM2: `.mat`). -/
 theorem save_writes_image_state (s : St) (hw : WF s) (im : Img) (hi : s.img = some im) (q : Path) (mm : Bool) :
-    (step false s (.save q)).1 = .saved (savedContent im q) ∧
-    ∃ im2, load (step false s (.save q)).2.fs q mm = some im2 ∧ im2.data = im.data ∧ im2.aff = im.aff ∧
+    (step .base s (.save q)).1 = .saved (savedContent im q) ∧
+    ∃ im2, load (step .base s (.save q)).2.fs q mm = some im2 ∧ im2.data = im.data ∧ im2.aff = im.aff ∧
       im2.cls = outCls im.cls q.ext ∧ im2.cls.validExt q.ext = true ∧
       (im2.cls ≠ .spm2 → im2.xf.best = im.aff) ∧
-      ∀ p, p ≠ q → (step false s (.save q)).2.fs p = s.fs p := by
+      ∀ p, p ≠ q → (step .base s (.save q)).2.fs p = s.fs p := by
   obtain ⟨fs, img⟩ := s
   simp only at hi
   subst hi
@@ -97,7 +97,7 @@ theorem save_writes_image_state (s : St) (hw : WF s) (im : Img) (hi : s.img = so
     exact h1
 
 example : ∃ s im, WF s ∧ s.img = some im ∧ im.mapped = true :=
-  ⟨(step false ⟨fs0 fun _ => .f32, none⟩ (.load .aImg true)).2, _, (step_safe _ _ (fs0_wf _) rfl).2.1, rfl, by decide⟩
+  ⟨(step .base ⟨fs0 fun _ => .f32, none⟩ (.load .aImg true)).2, _, (step_safe _ _ (fs0_wf _) rfl).2.1, rfl, by decide⟩
 
 /-- for the three classes of the original alphabet the class written is the class by extension alone (finite case
     check over the conversion table `outCls`; the table itself is tied to the source by `generated_outCls_agree`) -/
@@ -153,7 +153,7 @@ example : ∃ (close : Nat → Nat → Bool) (im : Img) (q : Path), (∀ a, clos
 /-- any number of direct header edits -/
 def hdrEdits (s : St) : List Nat → St
   | [] => s
-  | k :: ks => hdrEdits (step false s (.hdrEdit k)).2 ks
+  | k :: ks => hdrEdits (step .base s (.hdrEdit k)).2 ks
 
 theorem hdrEdits_spec (fs : FS) (im : Img) : ∀ ks : List Nat, ∃ x, hdrEdits ⟨fs, some im⟩ ks = ⟨fs, some { im with xf := x }⟩
   | [] => ⟨im.xf, rfl⟩
@@ -169,16 +169,16 @@ theorem hdrEdits_spec (fs : FS) (im : Img) : ∀ ks : List Nat, ∃ x, hdrEdits 
     This is the `update_header()` decision on the image itself, or on the `from_image` copy for a converting save. -/
 theorem save_ignores_header_affine_edits (s : St) (hw : WF s) (im : Img) (hi : s.img = some im) (q : Path)
     (ks : List Nat) :
-    ∃ c c', (step false s (.save q)).1 = .saved c ∧ (step false (hdrEdits s ks) (.save q)).1 = .saved c' ∧
+    ∃ c c', (step .base s (.save q)).1 = .saved c ∧ (step .base (hdrEdits s ks) (.save q)).1 = .saved c' ∧
       c.aff = im.aff ∧ c'.aff = im.aff ∧ c'.data = c.data ∧ c'.dt = c.dt ∧ c'.be = c.be ∧ c'.scaled = c.scaled ∧
       c'.tag = c.tag ∧ c'.cls = c.cls ∧
-      ∀ p, p ≠ q → (step false (hdrEdits s ks) (.save q)).2.fs p = (step false s (.save q)).2.fs p := by
+      ∀ p, p ≠ q → (step .base (hdrEdits s ks) (.save q)).2.fs p = (step .base s (.save q)).2.fs p := by
   obtain ⟨fs, img⟩ := s
   simp only at hi
   subst hi
   obtain ⟨x, hx⟩ := hdrEdits_spec fs im ks
   have hok : ImgOk fs im := hw.2 im rfl
-  have hok' : ImgOk fs { im with xf := x } := ⟨hok.1, hok.2⟩
+  have hok' : ImgOk fs { im with xf := x } := ⟨hok.1, hok.2.1, hok.2.2.1, hok.2.2.2⟩
   rw [hx]
   simp only [step, withImg, save_cur hok, save_cur hok']
   refine ⟨_, _, rfl, rfl, rfl, rfl, rfl, ?_, ?_, ?_, ?_, rfl, ?_⟩
@@ -193,20 +193,20 @@ theorem save_ignores_header_affine_edits (s : St) (hw : WF s) (im : Img) (hi : s
 /-- the single-edit form of the above, with the observation that an edit AWAY from the image affine onto a header
     that agreed with the image leaves even the transform codes of the file as `_affine2header` sets them -/
 theorem save_ignores_header_affine_edit (s : St) (hw : WF s) (im : Img) (hi : s.img = some im) (q : Path) (k : Nat) :
-    ∃ c c', (step false s (.save q)).1 = .saved c ∧ (step false (step false s (.hdrEdit k)).2 (.save q)).1 = .saved c' ∧
+    ∃ c c', (step .base s (.save q)).1 = .saved c ∧ (step .base (step .base s (.hdrEdit k)).2 (.save q)).1 = .saved c' ∧
       c.aff = im.aff ∧ c'.aff = im.aff ∧ c'.data = c.data ∧ c'.dt = c.dt ∧ c'.be = c.be ∧ c'.scaled = c.scaled ∧
       c'.tag = c.tag ∧ c'.cls = c.cls ∧
-      ∀ p, p ≠ q → (step false (step false s (.hdrEdit k)).2 (.save q)).2.fs p = (step false s (.save q)).2.fs p :=
+      ∀ p, p ≠ q → (step .base (step .base s (.hdrEdit k)).2 (.save q)).2.fs p = (step .base s (.save q)).2.fs p :=
   save_ignores_header_affine_edits s hw im hi q [k]
 
 example : ∃ s im, WF s ∧ s.img = some im ∧ im.hdrAff ≠ im.aff :=
-  ⟨(step false (step false ⟨fs0 fun _ => .i16, none⟩ (.load .aNii true)).2 (.hdrEdit 7)).2, _,
+  ⟨(step .base (step .base ⟨fs0 fun _ => .i16, none⟩ (.load .aNii true)).2 (.hdrEdit 7)).2, _,
    (step_safe _ _ (step_safe _ _ (fs0_wf _) rfl).2.1 rfl).2.1, rfl, by decide⟩
 
 /-- an edit that leaves the header's best affine EQUAL to the image affine is kept, transform codes included (the
     `allclose` branch): `load a.nii; img.header.set_sform(img.affine, code=3); save b.nii` writes sform_code 3 -/
 theorem header_edit_kept_when_affine_agrees :
-    (run false ⟨fs0 fun _ => .i16, none⟩ [.load .aNii true, .hdrEdit 0, .save .bNii, .hdrEdit 7, .save .aImg]).1 =
+    (run .base ⟨fs0 fun _ => .i16, none⟩ [.load .aNii true, .hdrEdit 0, .save .bNii, .hdrEdit 7, .save .aImg]).1 =
       [.loadOk, .unit,
        .saved { cls := .nifti1, data := 0, aff := 0, dt := .i16, be := false, scaled := false, tag := 0, xf := ⟨3, 0, 0, 0⟩ },
        .unit,
@@ -234,7 +234,7 @@ theorem fs0_clsWF (dts : Path → DT) : ClsWF ⟨fs0 dts, none⟩ := by
   cases p <;> rfl
 
 /-- every op preserves the class invariant (no guard needed) -/
-theorem step_clsWF (s : St) (op : Op) (hw : WF s) (hc : ClsWF s) : ClsWF (step false s op).2 := by
+theorem step_clsWF (s : St) (op : Op) (hw : WF s) (hc : ClsWF s) : ClsWF (step .base s op).2 := by
   obtain ⟨fs, img⟩ := s
   obtain ⟨hf, hi⟩ := hc
   simp only at hf hi
@@ -299,6 +299,10 @@ theorem step_clsWF (s : St) (op : Op) (hw : WF s) (hc : ClsWF s) : ClsWF (step f
           cases im.cls.hasToBytes
           · simp only [if_true]; exact ⟨hf, hi⟩
           · simp only [Bool.true_eq_false, if_false, materialise_deref hok]; exact keep _ rfl rfl
+      | wrap k =>
+          obtain ⟨a, hwr, _⟩ := wrapImg_ok hok k
+          simp only [step, withImg, hwr]
+          exact keep _ rfl rfl
       | save q =>
           simp only [step, withImg, save_cur hok]
           refine ⟨fun p c h => ?_, fun im' h' => ?_⟩
@@ -322,22 +326,22 @@ theorem self_save_keeps_class (s : St) (hc : ClsWF s) (im : Img) (hi : s.img = s
 
 /-- … along whole histories: the class invariant holds after any allowed history from the harness' file system -/
 theorem run_clsWF : ∀ (ops : List Op) (s : St), WF s → ClsWF s → allowedRun s ops = true →
-    ∃ f, (run false s ops).2 = some f ∧ ClsWF f
+    ∃ f, (run .base s ops).2 = some f ∧ ClsWF f
   | [], s, _, hc, _ => ⟨s, rfl, hc⟩
   | op :: rest, s, hw, hc, ha => by
       simp only [allowedRun, Bool.and_eq_true] at ha
       obtain ⟨hspec, hw'⟩ := step_safe_aux s op hw ha.1
       obtain ⟨f, h3, h4⟩ := run_clsWF rest _ hw' (step_clsWF s op hw hc) ha.2
-      have hne : (step false s op).1 ≠ .bad := hspec.1
-      have hrun : (run false s (op :: rest)).2 = (run false (step false s op).2 rest).2 := by
+      have hne : (step .base s op).1 ≠ .bad := hspec.1
+      have hrun : (run .base s (op :: rest)).2 = (run .base (step .base s op).2 rest).2 := by
         rw [run]
-        generalize step false s op = r at hne
+        generalize step .base s op = r at hne
         obtain ⟨o, s'⟩ := r
         cases o <;> first | rfl | exact absurd rfl hne
       exact ⟨f, by rw [hrun]; exact h3, h4⟩
 
 example : ∃ s im, WF s ∧ ClsWF s ∧ s.img = some im ∧ im.cls = .spm2 ∧ im.src = .sImg :=
-  ⟨(step false ⟨fs0 fun _ => .i16, none⟩ (.load .sImg true)).2, _, (step_safe _ _ (fs0_wf _) rfl).2.1,
+  ⟨(step .base ⟨fs0 fun _ => .i16, none⟩ (.load .sImg true)).2, _, (step_safe _ _ (fs0_wf _) rfl).2.1,
    step_clsWF _ _ (fs0_wf _) (fs0_clsWF _), rfl, rfl, rfl⟩
 
 /-! ### the repaired defect -/
@@ -345,43 +349,44 @@ example : ∃ s im, WF s ∧ ClsWF s ∧ s.img = some im ∧ im.cls = .spm2 ∧ 
 /-- ORIGINAL logic (no copy of the memmap before the target is opened 'wb'): `nib.save(nib.load('a.nii'), 'a.nii')`
     reads its data through the truncated file. -/
 theorem orig_self_overwrite_crashes :
-    (run true ⟨fs0 fun _ => .i16, none⟩ [.load .aNii true, .save .aNii]).1 = [.loadOk, .bad] := by decide
+    (run .none ⟨fs0 fun _ => .i16, none⟩ [.load .aNii true, .save .aNii]).1 = [.loadOk, .bad] := by decide
 
 /-- … and so does EVERY self-overwrite of a memory-mapped source in any well-formed state (all of `.nii`, `.img`
-    incl. the SPM2 pair and NIfTI-2, `.mgh`; compressed names and `mmap=False` are not `mapped`). -/
+    incl. the SPM2 pair and NIfTI-2, `.mgh`; compressed names and `mmap=False` are not `mapped`).  `fileMapped` = the
+    image's array reads the source file: a loaded image that is `mapped`, or a re-wrapped view of its memmap. -/
 theorem orig_self_overwrite_crashes_all_plain (s : St) (hw : WF s) (im : Img) (hi : s.img = some im)
-    (hm : im.mapped = true) : (step true s (.save im.src)).1 = .bad := by
+    (hm : im.fileMapped = true) : (step .none s (.save im.src)).1 = .bad := by
   obtain ⟨fs, img⟩ := s
   simp only at hi
   subst hi
   have hb := writeTo_orig_self (hw.2 im rfl) hm
   simp only [step, withImg, save]
   revert hb
-  generalize writeTo true fs im im.src = r
+  generalize writeTo .none fs im im.src = r
   obtain ⟨o, fs'⟩ := r
   intro hb
   simp only at hb
   subst hb
   rfl
 
-example : ∃ s im, WF s ∧ s.img = some im ∧ im.mapped = true ∧ im.src = .aMgh :=
-  ⟨(step false ⟨fs0 fun _ => .i16, none⟩ (.load .aMgh true)).2, _, (step_safe _ _ (fs0_wf _) rfl).2.1, rfl,
+example : ∃ s im, WF s ∧ s.img = some im ∧ im.fileMapped = true ∧ im.src = .aMgh :=
+  ⟨(step .base ⟨fs0 fun _ => .i16, none⟩ (.load .aMgh true)).2, _, (step_safe _ _ (fs0_wf _) rfl).2.1, rfl,
    by decide, rfl⟩
 
-example : ∃ s im, WF s ∧ s.img = some im ∧ im.mapped = true ∧ im.src = .sImg ∧ im.cls = .spm2 :=
-  ⟨(step false ⟨fs0 fun _ => .i16, none⟩ (.load .sImg true)).2, _, (step_safe _ _ (fs0_wf _) rfl).2.1, rfl,
+example : ∃ s im, WF s ∧ s.img = some im ∧ im.fileMapped = true ∧ im.src = .sImg ∧ im.cls = .spm2 :=
+  ⟨(step .base ⟨fs0 fun _ => .i16, none⟩ (.load .sImg true)).2, _, (step_safe _ _ (fs0_wf _) rfl).2.1, rfl,
    by decide, rfl, rfl⟩
 
 /-- CURRENT logic on the same histories: the self-overwrite succeeds and writes the image state.
     (Corollary of `save_writes_image_state` at `q = im.src`, kept as the positive twin of the theorem above.) -/
 theorem current_self_overwrite_ok (s : St) (hw : WF s) (im : Img) (hi : s.img = some im) :
-    (step false s (.save im.src)).1 = .saved (savedContent im im.src) :=
+    (step .base s (.save im.src)).1 = .saved (savedContent im im.src) :=
   (save_writes_image_state s hw im hi im.src true).1
 
 /-- the original logic was wrong ONLY there: off the image's own source it coincides with the current logic -/
 theorem orig_safe_off_source (s : St) (hw : WF s) (im : Img) (hi : s.img = some im) (q : Path) (hq : q ≠ im.src) :
-    (step true s (.save q)).1 = (step false s (.save q)).1 ∧
-    (step true s (.save q)).2.fs = (step false s (.save q)).2.fs := by
+    (step .none s (.save q)).1 = (step .base s (.save q)).1 ∧
+    (step .none s (.save q)).2.fs = (step .base s (.save q)).2.fs := by
   obtain ⟨fs, img⟩ := s
   simp only at hi
   subst hi
@@ -389,15 +394,199 @@ theorem orig_safe_off_source (s : St) (hw : WF s) (im : Img) (hi : s.img = some 
   exact ⟨trivial, trivial⟩
 
 example : ∃ s im q, WF s ∧ s.img = some im ∧ q ≠ im.src :=
-  ⟨(step false ⟨fs0 fun _ => .i16, none⟩ (.load .aNii true)).2, _, .bNii, (step_safe _ _ (fs0_wf _) rfl).2.1, rfl,
+  ⟨(step .base ⟨fs0 fun _ => .i16, none⟩ (.load .aNii true)).2, _, .bNii, (step_safe _ _ (fs0_wf _) rfl).2.1, rfl,
    by decide⟩
+
+/-! ### the second repair (ae98171b): re-wrapped views of the memory map -/
+
+/-- what the re-wrap op builds from a memory-mapped LOADED image: a base-class view (`np.asarray(img.dataobj)`, `[::1]`,
+    `.T.T`, `.view(np.ndarray)`, `np.asfortranarray`), an np.memmap instance (`np.asanyarray`, `[..., :]`), the proxy, or an
+    owning copy; `get_fdata()` yields the memmap itself or an owning array -/
+theorem wrap_of_mapped_proxy {fs : FS} {im : Img} (h : ImgOk fs im) (hp : im.arr = .proxy) (hm : im.mapped = true) :
+    wrapImg fs im .plainView = some (rewrapped im (.view false)) ∧
+    wrapImg fs im .mapInst = some (rewrapped im (.view true)) ∧
+    wrapImg fs im .copy = some (rewrapped im (.owned im.data im.arrFloat)) ∧
+    wrapImg fs im .proxy = some (rewrapped im .proxy) ∧
+    (wrapImg fs im .fdata = some (rewrapped im (.view true)) ∨
+     wrapImg fs im .fdata = some (rewrapped im (.owned im.data true))) := by
+  have hb : im.backed = true := by simp [Img.backed, Arr.backed, hp]
+  have hmat : materialise fs im = some (.ref im.src im.srcDt im.srcBe im.srcScaled true) := by
+    rw [materialise_ok h]; simp [Img.matOf, hp, hm]
+  -- the constructor step (`wrapArr`) …
+  have a1 : wrapArr fs im .plainView = some (rewrapped im (.view false)) := by simp [wrapArr, hmat]; rfl
+  have a2 : wrapArr fs im .mapInst = some (rewrapped im (.view true)) := by simp [wrapArr, hmat]
+  have a3 : wrapArr fs im .copy = some (rewrapped im (.owned im.data im.arrFloat)) := by simp [wrapArr, hmat, h.1 hb]
+  have a4 : wrapArr fs im .proxy = some (rewrapped im .proxy) := by simp [wrapArr, hp]
+  have a5 : wrapArr fs im .fdata = some (rewrapped im (.view true)) ∨
+      wrapArr fs im .fdata = some (rewrapped im (.owned im.data true)) := by
+    obtain ⟨ca, hg, _⟩ := getFdata_ok h false
+    unfold wrapArr
+    rw [hg]
+    simp only
+    cases ca with
+    | alias w => cases w <;> simp
+    | owned d w => simp
+    | none => simp
+  -- … and the touch of the new image's data (`wrapImg`): every result is usable
+  have lift : ∀ k a, wrapArr fs im k = some (rewrapped im a) → wrapImg fs im k = some (rewrapped im a) := by
+    intro k a hk
+    obtain ⟨a', h1', h2'⟩ := wrapArr_ok h k
+    rw [h1'] at hk
+    simp only [Option.some.injEq] at hk
+    rw [← hk]
+    exact wrapImg_of_wrapArr h1' h2'
+  exact ⟨lift _ _ a1, lift _ _ a2, lift _ _ a3, lift _ _ a4, a5.elim (fun e => Or.inl (lift _ _ e)) (fun e => Or.inr (lift _ _ e))⟩
+
+/-- THE INSTANCE-CHECK GUARD (`isinstance(data, np.memmap)`, fae418e9 … ae98171b^) crashes EXACTLY for the base-class
+    view variants: after re-wrapping a memory-mapped loaded image with array kind `k`, saving the new image onto the
+    source file reads through the truncated file iff `k` is a plain view. -/
+theorem orig_view_overwrite_crashes (s : St) (hw : WF s) (im : Img) (hi : s.img = some im) (hp : im.arr = .proxy)
+    (hm : im.mapped = true) (k : Wrap) :
+    (step .inst (step .inst s (.wrap k)).2 (.save im.src)).1 = .bad ↔ k = .plainView := by
+  obtain ⟨fs, img⟩ := s
+  simp only at hi
+  subst hi
+  have hok : ImgOk fs im := hw.2 im rfl
+  obtain ⟨h1, h2, h3, h4, h5⟩ := wrap_of_mapped_proxy hok hp hm
+  have hb : im.backed = true := by simp [Img.backed, Arr.backed, hp]
+  -- outcome of the save for each array the op can have produced
+  have bad_view : ∀ a, a = Arr.view false → ImgOk fs (rewrapped im a) →
+      (step .inst ⟨fs, some (rewrapped im a)⟩ (.save im.src)).1 = .bad := by
+    intro a ha hoka
+    subst ha
+    have := writeTo_guard_self (g := .inst) hoka false (by simp [Img.matOf, rewrapped]) rfl
+    simp only [rewrapped] at this
+    simp only [step, withImg, save, rewrapped]
+    revert this
+    generalize writeTo Guard.inst fs _ im.src = r
+    obtain ⟨o, fs'⟩ := r
+    intro hbad
+    simp only at hbad
+    subst hbad
+    rfl
+  have ok_other : ∀ a, a ≠ Arr.view false → ImgOk fs (rewrapped im a) →
+      (step .inst ⟨fs, some (rewrapped im a)⟩ (.save im.src)).1 ≠ .bad := by
+    intro a ha hoka
+    have heq : writeTo .inst fs (rewrapped im a) im.src = writeTo .base fs (rewrapped im a) im.src := by
+      apply writeTo_guard_eq hoka
+      cases a with
+      | owned d fl => left; rfl
+      | proxy =>
+          right; right
+          exact ⟨true, by simp [Img.matOf, rewrapped, Img.mapped] at hm ⊢; simp [hm], rfl⟩
+      | view inst =>
+          cases inst
+          · exact absurd rfl ha
+          · right; right; exact ⟨true, by simp [Img.matOf, rewrapped], rfl⟩
+    simp only [step, withImg, save]
+    rw [heq, writeTo_cur hoka]
+    simp
+  have okOf : ∀ a, wrapImg fs im k = some (rewrapped im a) → ImgOk fs (rewrapped im a) := by
+    intro a ha
+    obtain ⟨a', h1', h2'⟩ := wrapImg_ok hok k
+    rw [h1'] at ha
+    simp only [Option.some.injEq] at ha
+    rw [← ha]; exact h2'
+  cases k with
+  | plainView =>
+      refine ⟨fun _ => rfl, fun _ => ?_⟩
+      have hbad := bad_view _ rfl (okOf _ h1)
+      simp only [step, withImg] at hbad
+      simp only [step, withImg, h1]
+      exact hbad
+  | mapInst =>
+      refine ⟨fun hbad => ?_, fun h => nomatch h⟩
+      have hne := ok_other _ (by simp) (okOf _ h2)
+      simp only [step, withImg, h2] at hbad
+      simp only [step, withImg] at hne
+      exact absurd hbad hne
+  | copy =>
+      refine ⟨fun hbad => ?_, fun h => nomatch h⟩
+      have hne := ok_other _ (by simp) (okOf _ h3)
+      simp only [step, withImg, h3] at hbad
+      simp only [step, withImg] at hne
+      exact absurd hbad hne
+  | proxy =>
+      refine ⟨fun hbad => ?_, fun h => nomatch h⟩
+      have hne := ok_other _ (by simp) (okOf _ h4)
+      simp only [step, withImg, h4] at hbad
+      simp only [step, withImg] at hne
+      exact absurd hbad hne
+  | fdata =>
+      refine ⟨fun hbad => ?_, fun h => nomatch h⟩
+      rcases h5 with h5 | h5
+      · have hne := ok_other _ (by simp) (okOf _ h5)
+        simp only [step, withImg, h5] at hbad
+        simp only [step, withImg] at hne
+        exact absurd hbad hne
+      · have hne := ok_other _ (by simp) (okOf _ h5)
+        simp only [step, withImg, h5] at hbad
+        simp only [step, withImg] at hne
+        exact absurd hbad hne
+
+example : ∃ s im, WF s ∧ s.img = some im ∧ im.arr = .proxy ∧ im.mapped = true :=
+  ⟨(step .base ⟨fs0 fun _ => .i16, none⟩ (.load .aImg true)).2, _, (step_safe _ _ (fs0_wf _) rfl).2.1, rfl, rfl, by decide⟩
+
+/-- the concrete history of the defect: `img = load('a.nii'); new = Nifti1Image(np.asarray(img.dataobj), img.affine,
+    img.header); save(new, 'a.nii')` under the instance-check guard — and under the current guard -/
+theorem orig_view_overwrite_crashes_witness :
+    (run .inst ⟨fs0 fun _ => .i16, none⟩ [.load .aNii true, .wrap .plainView, .save .aNii]).1 = [.loadOk, .unit, .bad] ∧
+    (run .base ⟨fs0 fun _ => .i16, none⟩ [.load .aNii true, .wrap .plainView, .save .aNii]).1 =
+      [.loadOk, .unit, .saved (initContent .aNii .i16 false false)] := by decide
+
+/-- CURRENT guard (`maps_file`: follows `.base`): for EVERY array kind the re-wrapped image saved onto the source file
+    (or anywhere) writes the image state, the new image has no filename until then, and the state stays well formed -/
+theorem current_view_overwrite_ok (s : St) (hw : WF s) (im : Img) (hi : s.img = some im) (k : Wrap) (q : Path) :
+    ∃ im', (step .base s (.wrap k)) = (.unit, ⟨s.fs, some im'⟩) ∧ WF ⟨s.fs, some im'⟩ ∧
+      im'.data = im.data ∧ im'.aff = im.aff ∧ im'.dt = im.dt ∧ im'.tag = im.tag ∧ im'.cls = im.cls ∧ im'.fname = none ∧
+      (step .base ⟨s.fs, some im'⟩ (.save q)).1 = .saved (savedContent im' q) ∧
+      (savedContent im' q).data = im.data ∧ (savedContent im' q).aff = im.aff := by
+  obtain ⟨fs, img⟩ := s
+  simp only at hi
+  subst hi
+  have hok : ImgOk fs im := hw.2 im rfl
+  obtain ⟨a, hwr, hok'⟩ := wrapImg_ok hok k
+  refine ⟨rewrapped im a, by simp [step, withImg, hwr], ⟨hw.1, fun im' h' => ?_⟩, rfl, rfl, rfl, rfl, rfl, rfl, ?_, rfl, rfl⟩
+  · simp only [Option.some.injEq] at h'; subst h'; exact hok'
+  · simp only [step, withImg, save_cur hok']
+
+/-- the instance-check guard was wrong ONLY for plain views saved onto the file they map: for every other array kind,
+    and for every other target, it coincides with the current guard -/
+theorem inst_guard_safe_off_views (s : St) (hw : WF s) (im : Img) (hi : s.img = some im) (q : Path)
+    (h : q ≠ im.src ∨ im.arr ≠ .view false) :
+    (step .inst s (.save q)).1 = (step .base s (.save q)).1 ∧
+    (step .inst s (.save q)).2.fs = (step .base s (.save q)).2.fs := by
+  obtain ⟨fs, img⟩ := s
+  simp only at hi
+  subst hi
+  have hok : ImgOk fs im := hw.2 im rfl
+  have heq : writeTo .inst fs im q = writeTo .base fs im q := by
+    apply writeTo_guard_eq hok
+    rcases h with h | h
+    · exact Or.inr (Or.inl h)
+    · cases ha : im.arr with
+      | owned d fl => left; simp [Img.fileMapped, ha]
+      | proxy =>
+          by_cases hm : im.mapped = true
+          · right; right; exact ⟨true, by simp [Img.matOf, ha, hm], rfl⟩
+          · left; simp [Img.fileMapped, ha, hm]
+      | view inst =>
+          cases inst
+          · exact absurd ha h
+          · right; right; exact ⟨true, by simp [Img.matOf, ha], rfl⟩
+  simp only [step, withImg, save, heq]
+  exact ⟨trivial, trivial⟩
+
+example : ∃ s im, WF s ∧ s.img = some im ∧ im.arr = .view false ∧ im.fname = none :=
+  ⟨(step .base (step .base ⟨fs0 fun _ => .i16, none⟩ (.load .aNii true)).2 (.wrap .plainView)).2, _,
+   (step_safe _ _ (step_safe _ _ (fs0_wf _) rfl).2.1 rfl).2.1, rfl, rfl, rfl⟩
 
 /-! ### what the current code still does wrong (open findings; why the guard is needed) -/
 
 /-- `img = load('a.nii')  # int16;  img.set_data_dtype(int32);  save(img, 'a.nii');  img.get_fdata()` — the file
     written is right, the live image reads it through its stale proxy. -/
 theorem current_stale_source_counterexample :
-    (run false ⟨fs0 fun _ => .i16, none⟩ [.load .aNii false, .setDt .i32, .save .aNii, .fdata false]).1 =
+    (run .base ⟨fs0 fun _ => .i16, none⟩ [.load .aNii false, .setDt .i32, .save .aNii, .fdata false]).1 =
       [.loadOk, .dtOk, .saved { cls := .nifti1, data := 0, aff := 0, dt := .i32, be := false, scaled := false, tag := 0,
                                 xf := ⟨2, 0, 0, 0⟩ }, .bad] ∧
     allowedRun ⟨fs0 fun _ => .i16, none⟩ [.load .aNii false, .setDt .i32, .save .aNii, .fdata false] = false := by
@@ -406,14 +595,14 @@ theorem current_stale_source_counterexample :
 /-- float64 + mmap: the cached `get_fdata()` array IS the memmap of the source; after a dtype-changing self-save
     it maps a shorter, re-laid-out file (SIGBUS in the real process). -/
 theorem current_stale_fdata_alias_counterexample :
-    (run false ⟨fs0 fun _ => .f64, none⟩ [.load .aNii true, .fdata false, .setDt .i16, .save .aNii, .fdata false]).1 =
+    (run .base ⟨fs0 fun _ => .f64, none⟩ [.load .aNii true, .fdata false, .setDt .i16, .save .aNii, .fdata false]).1 =
       [.loadOk, .fdata 0, .dtOk, .saved { cls := .nifti1, data := 0, aff := 0, dt := .i16, be := false, scaled := true,
                                            tag := 0, xf := ⟨2, 0, 0, 0⟩ }, .bad] := by
   decide
 
 /-- the same through `get_fdata(dtype=np.float32)` on a float32 SPM2 pair -/
 theorem current_stale_fdata_alias_f32_counterexample :
-    (run false ⟨fs0 fun _ => .f32, none⟩ [.load .sImg true, .fdata true, .setDt .i16, .save .sImg, .fdata true]).1 =
+    (run .base ⟨fs0 fun _ => .f32, none⟩ [.load .sImg true, .fdata true, .setDt .i16, .save .sImg, .fdata true]).1 =
       [.loadOk, .fdata 6, .dtOk, .saved { cls := .spm2, data := 6, aff := 6, dt := .i16, be := false, scaled := true,
                                            tag := 0, xf := ⟨0, 0, 0, 0⟩ }, .bad] := by
   decide
@@ -421,11 +610,15 @@ theorem current_stale_fdata_alias_f32_counterexample :
 /-- the guard is TIGHT: a save onto the image's own source that changes the layout always leaves the live image
     unusable (whatever its cache state) — this is exactly the open finding, nothing else is excluded. -/
 theorem guard_is_tight (s : St) (hw : WF s) (im : Img) (hi : s.img = some im) (hk : layoutKept im im.src = false) :
-    probe (step false s (.save im.src)).2 = none := by
+    probe (step .base s (.save im.src)).2 = none := by
   obtain ⟨fs, img⟩ := s
   simp only at hi
   subst hi
   have hok : ImgOk fs im := hw.2 im rfl
+  have hbk : im.backed = true := by
+    cases hb : im.backed
+    · simp [layoutKept, hb] at hk
+    · rfl
   have hne : ¬ ((outHeader im im.src).1 = im.srcDt ∧ (outHeader im im.src).2.2.1 = im.srcBe ∧
       outScaled im im.src = im.srcScaled) := by
     intro h
@@ -437,24 +630,30 @@ theorem guard_is_tight (s : St) (hw : WF s) (im : Img) (hi : s.img = some im) (h
     simp only [readLayout, FS.set_same, savedContent]
     rw [if_neg hne]
   simp only [step, withImg, save_cur hok]
-  have key : ∀ im' : Img, im'.src = im.src → im'.srcDt = im.srcDt → im'.srcBe = im.srcBe → im'.srcScaled = im.srcScaled →
+  have key : ∀ im' : Img, im'.arr = im.arr → im'.src = im.src → im'.srcDt = im.srcDt → im'.srcBe = im.srcBe →
+      im'.srcScaled = im.srcScaled →
       probe ⟨fs.set im.src (some (.intact (savedContent im im.src))), some im'⟩ = none := by
-    intro im' h1 h2 h3 h4
+    intro im' h0 h1 h2 h3 h4
     have hr := hrl im' h1 h2 h3 h4
-    have hmat : materialise (fs.set im.src (some (.intact (savedContent im im.src)))) im' = none := by
-      simp [materialise, hr]
-    unfold probe getFdata
-    simp only [hmat, hr, Option.map_none, Option.bind_none]
-    cases im'.cache with
+    have hmd : (materialise (fs.set im.src (some (.intact (savedContent im im.src)))) im').bind
+        (deref (fs.set im.src (some (.intact (savedContent im im.src))))) = none := by
+      unfold materialise
+      rw [h0]
+      cases ha : im.arr with
+      | owned d fl => simp [Img.backed, Arr.backed, ha] at hbk
+      | view inst => simp [deref, hr]
+      | proxy => simp [hr]
+    unfold probe
+    simp only [hmd]
+    cases getFdata (fs.set im.src (some (.intact (savedContent im im.src)))) im' false with
     | none => rfl
-    | owned d w => cases w <;> rfl
-    | alias w => cases w <;> rfl
+    | some r => rfl
   by_cases hc : outCls im.cls im.src.ext = im.cls
-  · simp only [hc, if_true]; exact key _ rfl rfl rfl rfl
-  · simp only [hc, if_false]; exact key _ rfl rfl rfl rfl
+  · simp only [hc, if_true]; exact key _ rfl rfl rfl rfl rfl
+  · simp only [hc, if_false]; exact key _ rfl rfl rfl rfl rfl
 
 example : ∃ s im, WF s ∧ s.img = some im ∧ layoutKept im im.src = false :=
-  ⟨(step false (step false ⟨fs0 fun _ => .i16, none⟩ (.load .aNii true)).2 (.setDt .i32)).2, _,
+  ⟨(step .base (step .base ⟨fs0 fun _ => .i16, none⟩ (.load .aNii true)).2 (.setDt .i32)).2, _,
    (step_safe _ _ (step_safe _ _ (fs0_wf _) rfl).2.1 rfl).2.1, rfl, by decide⟩
 
 /-! ### tables regenerated from the working tree -/
@@ -476,6 +675,15 @@ theorem generated_tables_agree :
     Gen.pathTable = Path.all.map (fun p => (clsCode p.cls, p.compressed)) ∧
     Gen.mghDtypes = (List.range 5).filter (fun i => (allDT[i]?.map mghOk) == some true) ∧
     Gen.analyzeCopiesBeforeOpen = true ∧ Gen.mghCopiesBeforeOpen = true := by decide
+
+def guardCode : Guard → Nat
+  | .none => 0 | .inst => 1 | .base => 2
+
+/-- the copy guard of BOTH `to_file_map` bodies is the one every `step .base` theorem is about: `maps_file(data)`, and
+    `volumeutils.maps_file` (AST) is a loop over `.base` with an `np.memmap` instance test that ends in an `mmap.mmap`
+    test (0 no guard / 1 `isinstance(data, np.memmap)` / 2 follows `.base`) -/
+theorem generated_guard_agrees :
+    guardCode .base = Gen.analyzeGuard ∧ guardCode .base = Gen.mghGuard ∧ Gen.mapsFileFollowsBase = true := by decide
 
 /-- `klass.valid_exts` looked up in the generated `all_image_classes` table -/
 def genValid (c e : Nat) : Bool := (Gen.classTable.find? (fun r => r.1 == c)).any (fun r => r.2.contains e)
